@@ -66,6 +66,7 @@ func judgeShadow(w *check, c *core.Case) (string, string, runStats) {
 		st.other = true // fails with and without the shadow: some other defect (C01/C04/C05)
 		return core.OK, "", st
 	}
+	st.verdict = &v
 	return "shadow:" + v.Class, v.Detail + " (the shadow-blanked twin agrees with the reference)", st
 }
 
@@ -139,6 +140,7 @@ func judgeTail(w *check, c *core.Case) (string, string, runStats) {
 		st.other = true
 		return core.OK, "", st
 	}
+	st.verdict = &v
 	return "exit:" + v.Class, v.Detail + " (the drained twin agrees with its reference)", st
 }
 
